@@ -1,6 +1,11 @@
 (* c17_driver.ml — runs the extracted rhombus-tiling checker of Model/Tiling2.v.
    Input line:  c17 <tn> <td> <use_dirs 0/1> <nd> dx dy ... <scale> <nV> x y ... <nE> j k ... <nE> cx cy ...
-   Output: "key tokens" lines then "end". *)
+   Output: "key tokens" lines then "end".
+   Dual construction (Model/DeBruijn.v); every rational is two hex integers "num den":
+     db <n> <scaling> <B> starts.. <B> normals.. <B> stars.. <N> points.. <F> a b c d ..
+        -> idx (N*B integers)  mar (N rationals)  win (N flags)  pos (N*2 rationals)  quad (F * "i s j t", i = -1: no certificate)
+     gv <nlines> <scaling> <B> grads.. <B> normals.. <B> offsets.. <M> b1 l1 b2 l2 ..
+        -> pts (per requested intersection "1 x y" / "0 0 1 0 1")  starts (B*2 rationals) *)
 open Model
 open Hexio
 
@@ -35,6 +40,38 @@ let cmd_c17 c =
      | Some ps -> out "sides" (s_list (fun p -> s_nat (n_sides p)) ps))
   end
 
+let next_q c : q =
+  let n = next_z c in
+  (match next_z c with Zpos p -> { qnum = n; qden = p } | _ -> failwith "denominator not positive")
+let next_qpair c = let a = next_q c in let b = next_q c in (a, b)
+let s_q (x : q) = s_z x.qnum ^ " " ^ s_z (Zpos x.qden)
+let s_qpair (a, b) = s_q a ^ " " ^ s_q b
+
+let cmd_db c =
+  let n = next_z c in let sc = next_q c in
+  let starts = next_list c next_qpair in let normals = next_list c next_qpair in let stars = next_list c next_qpair in
+  let pts = next_list c next_qpair in
+  let faces = next_list c (fun c -> let a = next_nat c in let b = next_nat c in let c' = next_nat c in let d = next_nat c in [a; b; c'; d]) in
+  let rs = List.map (fun q -> db_eval n sc starts normals stars q) pts in
+  let ks = List.map (fun (((k, _), _), _) -> k) rs in
+  out "idx" (sp (List.concat_map (fun k -> List.map s_z k) ks));
+  out "mar" (sp (List.map (fun (((_, m), _), _) -> s_q m) rs));
+  out "win" (sp (List.map (fun (((_, _), w), _) -> s_bool w) rs));
+  out "pos" (sp (List.map (fun (((_, _), _), p) -> s_qpair p) rs));
+  let b = nat_of_int (List.length starts) in
+  out "quad" (sp (List.map (fun o -> match o with
+      | None -> "-1 0 -1 0"
+      | Some ((i, s), (j, t)) -> sp [s_nat i; s_z s; s_nat j; s_z t]) (face_certs b ks faces)))
+
+let cmd_gv c =
+  let n = next_nat c in let sc = next_q c in
+  let grads = next_list c next_qpair in let normals = next_list c next_qpair in let offs = next_list c next_q in
+  let g = { g_grads = grads; g_normals = normals; g_offsets = offs; g_nlines = n; g_scaling = sc } in
+  let which = next_list c (fun c -> let b1 = next_nat c in let l1 = next_nat c in let b2 = next_nat c in let l2 = next_nat c in (b1, l1, b2, l2)) in
+  out "pts" (sp (List.map (fun (b1, l1, b2, l2) -> match grid_point g b1 l1 b2 l2 with
+      | None -> "0 0 1 0 1" | Some p -> "1 " ^ s_qpair p) which));
+  out "starts" (sp (List.map s_qpair (start_positions g)))
+
 let () =
   iter_lines (fun line ->
       let c = cursor_of_line line in
@@ -42,6 +79,8 @@ let () =
       (try
          (match cmd with
           | "c17" -> cmd_c17 c
+          | "db" -> cmd_db c
+          | "gv" -> cmd_gv c
           | _ -> out "error" ("unknown command " ^ cmd))
        with Failure m -> out "error" m);
       print_endline "end")
